@@ -53,7 +53,7 @@ AMBIGUOUS = (ast.IfExp, ast.ListComp, ast.SetComp, ast.DictComp, ast.GeneratorEx
 
 EXPR_KINDS = ['const', 'name', 'binop', 'call', 'lambda', 'ifexp', 'listcomp', 'dictcomp', 'genexp', 'fstring', 'walrus',
               'attr', 'subscript', 'div0', 'print']
-STMT_KINDS = ['expr', 'assign', 'chainassign', 'chainsub', 'chaintuple', 'augassign', 'annassign', 'tupleassign', 'subassign', 'if', 'match', 'for', 'while', 'try',
+STMT_KINDS = ['expr', 'assign', 'chainassign', 'chainsub', 'chaintuple', 'augassign', 'annassign', 'annassign2', 'tupleassign', 'subassign', 'if', 'match', 'for', 'while', 'try',
               'trystar', 'raise', 'assert', 'with', 'class', 'def', 'decodef', 'import', 'importfrom', 'pass', 'asyncdef']
 
 
@@ -75,7 +75,7 @@ def _stmts(depth):
   e = _expr(3)
   simple = st.one_of(
       st.builds(lambda k, x, i: {'s': k, 'e': x, 'i': i},
-                st.sampled_from(['expr', 'assign', 'chainassign', 'chainsub', 'chaintuple', 'augassign', 'annassign', 'tupleassign', 'subassign', 'raise', 'assert']),
+                st.sampled_from(['expr', 'assign', 'chainassign', 'chainsub', 'chaintuple', 'augassign', 'annassign', 'annassign2', 'tupleassign', 'subassign', 'raise', 'assert']),
                 e, st.integers(0, 3)),
       st.sampled_from([{'s': 'import'}, {'s': 'importfrom'}, {'s': 'pass'}]))
 
@@ -179,6 +179,8 @@ def render(stmts, ind=0):
       out.append(pad + '%s += %s' % (v, e))
     elif k == 'annassign':
       out.append(pad + '%s: int = %s' % (v, e))
+    elif k == 'annassign2':
+      out.append(pad + '%s: box.ann = %s' % (v, e))        # an annotation whose evaluation is observable
     elif k == 'tupleassign':
       out.append(pad + '%s, t1 = %s, 1' % (v, e))
     elif k == 'subassign':
@@ -300,7 +302,7 @@ def _names(mask):
 def exhaustive(tier):
   constructs = [
       ('v0 = 1', 'stmt'), ('v0 += 1', 'stmt'), ('v0: int = 1', 'stmt'), ('(w := 1)', 'expr'),
-      ('lst[0] = v0 = 5', 'stmt'), ('v0 = (t1, t2) = (1, 2)', 'stmt'),
+      ('lst[0] = v0 = 5', 'stmt'), ('v0 = (t1, t2) = (1, 2)', 'stmt'), ('v0: box.ann = 1', 'stmt'),
       ('if v0:\n  pass', 'stmt'), ('match v0:\n  case _:\n    pass', 'stmt'),
       ('for _k in (1,):\n  pass', 'stmt'), ('while False:\n  pass', 'stmt'),
       ('ident(1)', 'expr'),
